@@ -196,3 +196,6 @@ func C05_Default() {
 	}
 	_ = printer.Tab
 }
+
+// ContInHeredoc exports contInHeredoc for cmd/refdiff.
+func ContInHeredoc(src []rune) bool { return contInHeredoc(src) }
